@@ -162,8 +162,10 @@ def current_block_property(m):
                         return 'CURRENT DATA pulse %s %s part: %s' % (t[0], name, b)
         a = math.hypot(re_, im_)
         if a >= 1e-30:
-            # seven printed digits (six for magnitudes in 0.1 .. 1) of the magnitude plus seven of each part
-            if abs(mag - a) > (6.1e-6 if 0.1 <= mag < 1 else 2e-6) * a:
+            # printed precision of the magnitude plus that of the parts: seven digits, six for a value in 0.1 .. 1
+            six = lambda v: 0.1 <= abs(v) < 1
+            tolm = (5e-6 if six(mag) else 5e-7) + (5e-6 if (six(re_) or six(im_)) else 5e-7)
+            if abs(mag - a) > 1.05 * tolm * a:
                 return 'CURRENT DATA row %s: magnitude %r printed for (%r, %r)' % (t[0], mag, re_, im_)
             want = math.degrees(math.atan2(im_, re_))
             if abs(((ph - want + 180) % 360) - 180) > 1e-3:
